@@ -26,4 +26,26 @@ WNext == \/ WInsert1 \/ WInsert1 \/ WInsert2 \/ WUpdate \/ UpdateId \/ WDelete
          \/ \E w \in 1..14 : Begin \/ Commit \/ Rollback \/ Savepoint \/ RollbackTo \/ Release
          \/ \E w \in 1..8 : Reopen \/ Checkpoint
 WSpec == Init /\ [][WNext]_vars
+
+(***************************************************************************)
+(* Transaction-focused exploration (C07, C10): starts from a table with    *)
+(* two rows (the history begins with the two INSERTs that create them),    *)
+(* few DML statements, every transaction-control step - so that the        *)
+(* exhaustive per-transition enumeration reaches depth 6-8 inside          *)
+(* transactions: ROLLBACK TO followed by further writes and a second       *)
+(* rollback, RELEASE then ROLLBACK, nested savepoints, ...                 *)
+(***************************************************************************)
+TRows == {Row(1, 1, 0), Row(2, N, 1)}
+TStep(r, rs) == [op |-> [k |-> "insert", rows |-> <<r>>], ok |-> TRUE, n |-> 1, rows |-> rs, intxn |-> FALSE, touched |-> {r[1]}]
+TInit == /\ rows = TRows /\ tomb = {} /\ reop = FALSE /\ txn = <<>> /\ conf = "default" /\ nops = 2
+         /\ hist = <<TStep(Row(1, 1, 0), {Row(1, 1, 0)}), TStep(Row(2, N, 1), TRows)>>
+TDml == \/ \E r \in {Row(3, 2, 0), Row(1, N, 0)} : Stmt([k |-> "insert", rows |-> <<r>>], DoInsert(rows, <<r>>))
+        \/ \E p \in {[k |-> "eq", c |-> "id", v |-> 1], [k |-> "eq", c |-> "b", v |-> 1], [k |-> "all", c |-> "id", v |-> 0]} :
+              \/ Stmt([k |-> "update", c |-> "b", v |-> 1, p |-> p], DoUpdate(rows, "b", 1, p))
+              \/ Stmt([k |-> "update", c |-> "b", v |-> 0, p |-> p], DoUpdate(rows, "b", 0, p))
+              \/ Stmt([k |-> "delete", p |-> p], DoDelete(rows, p))
+        \/ Stmt([k |-> "update", c |-> "a", v |-> 2, p |-> [k |-> "eq", c |-> "id", v |-> 2]], DoUpdate(rows, "a", 2, [k |-> "eq", c |-> "id", v |-> 2]))
+TNext == (txn # <<>> /\ TDml) \/ Begin \/ Commit \/ Rollback \/ Savepoint \/ RollbackTo \/ Release
+         \/ (txn = <<>> /\ nops > 3 /\ TDml)
+TSpec == TInit /\ [][TNext]_vars
 =============================================================================
